@@ -22,7 +22,7 @@ from .rng import Rng, derive
 
 name = "values"
 
-BV_WIDTHS = [1, 8, 32, 64, 65, 130]
+BV_WIDTHS = [1, 8, 24, 32, 64, 65, 72, 128, 130]
 F32_BITS = [0x00000000, 0x80000000, 0x00000001, 0x807FFFFF, 0x7F800000, 0xFF800000, 0x7F7FFFFF, 0x3F800000, 0x3F800001,
             0x4B800000, 0x33800000, 0x00800000, 0xC0490FDB, 0x3DCCCCCD]
 F64_BITS = [0x0, 0x8000000000000000, 0x1, 0x800FFFFFFFFFFFFF, 0x7FF0000000000000, 0xFFF0000000000000, 0x7FEFFFFFFFFFFFFF,
@@ -41,8 +41,11 @@ def sort_of(sp, cfg):
         return ("fp", sp[2])
     if op in ("str", "strc", "strcat"):
         return ("str", None)
-    if op in ("add", "sub", "xor", "and", "or", "mul", "not"):
+    if op in ("add", "sub", "xor", "and", "or", "mul", "not", "reverse", "shl", "lshr", "ashr", "neg", "sdiv", "srem", "udiv",
+              "urem", "rol", "ror"):
         return sort_of(sp[1], cfg)
+    if op == "sext":
+        return ("bv", sp[1] + sort_of(sp[2], cfg)[1])
     if op == "extract":
         return ("bv", sp[1] - sp[2] + 1)
     if op == "concat":
@@ -89,6 +92,17 @@ def build_claripy(sp, cl):
         return {"add": a + b, "sub": a - b, "xor": a ^ b, "and": a & b, "or": a | b, "mul": a * b}[op]
     if op == "not":
         return ~B(sp[1])
+    if op == "neg":
+        return -B(sp[1])
+    if op == "reverse":
+        return cl.Reverse(B(sp[1]))
+    if op in ("shl", "lshr", "ashr", "sdiv", "srem", "udiv", "urem", "rol", "ror"):
+        a, b = B(sp[1]), B(sp[2])
+        return {"shl": lambda: a << b, "lshr": lambda: cl.LShR(a, b), "ashr": lambda: a >> b, "sdiv": lambda: a.SDiv(b),
+                "srem": lambda: a.SMod(b), "udiv": lambda: a // b, "urem": lambda: a % b, "rol": lambda: cl.RotateLeft(a, b),
+                "ror": lambda: cl.RotateRight(a, b)}[op]()
+    if op == "sext":
+        return cl.SignExt(sp[1], B(sp[2]))
     if op == "extract":
         return cl.Extract(sp[1], sp[2], B(sp[3]))
     if op == "concat":
@@ -175,6 +189,19 @@ def build_ref(sp, ctx):
         return {"add": a + b, "sub": a - b, "xor": a ^ b, "and": a & b, "or": a | b, "mul": a * b}[op]
     if op == "not":
         return ~B(sp[1])
+    if op == "neg":
+        return -B(sp[1])
+    if op == "reverse":
+        a = B(sp[1])
+        n = a.size() // 8
+        return a if n == 1 else z3.Concat(*[z3.Extract(8 * i + 7, 8 * i, a) for i in range(n)])
+    if op in ("shl", "lshr", "ashr", "sdiv", "srem", "udiv", "urem", "rol", "ror"):
+        a, b = B(sp[1]), B(sp[2])
+        return {"shl": lambda: a << b, "lshr": lambda: z3.LShR(a, b), "ashr": lambda: a >> b, "sdiv": lambda: a / b,
+                "srem": lambda: z3.SRem(a, b), "udiv": lambda: z3.UDiv(a, b), "urem": lambda: z3.URem(a, b),
+                "rol": lambda: z3.RotateLeft(a, b), "ror": lambda: z3.RotateRight(a, b)}[op]()
+    if op == "sext":
+        return z3.SignExt(sp[1], B(sp[2]))
     if op == "extract":
         return z3.Extract(sp[1], sp[2], B(sp[3]))
     if op == "concat":
@@ -311,9 +338,26 @@ class Gen:
             if k < 85 and w > 1:
                 hi = r.range(0, w - 1)
                 return ["extract", hi, r.range(0, hi), v]
-            if k < 93:
+            if k < 89:
                 return ["concat", v, self.bvconst(r.choice([1, 8, 64]))]
-            return ["zext", r.choice([1, 7, 64]), v]
+            if k < 92:
+                return ["zext", r.choice([1, 7, 64]), v]
+            # operations that are re-evaluated by claripy's concrete backend when the answer comes from a cached model
+            k2 = r.below(100)
+            if k2 < 25 and w % 8 == 0:
+                return ["reverse", v]
+            if k2 < 45:
+                return [r.choice(["shl", "lshr", "ashr", "rol", "ror"]), v, ["bvc", r.choice([0, 1, 7, w - 1, w // 2]) % (1 << min(w, 8)) if w > 1 else 0, w]]
+            if k2 < 55:
+                return ["sext", r.choice([1, 8, 63]), v]
+            if k2 < 65:
+                return r.choice([["not", v], ["neg", v]])
+            if k2 < 80:
+                d = self.bvconst(w)
+                if d[1] == 0:
+                    d = ["bvc", 1, w]
+                return [r.choice(["sdiv", "srem", "udiv", "urem"]), v, d]
+            return ["mul", v, self.bvconst(w)]
         if v[0] == "fp":
             kk = v[2]
             if k < 45:
